@@ -4,6 +4,7 @@
 package proc
 
 import (
+	"strings"
 	"fmt"
 	"strconv"
 )
@@ -389,7 +390,22 @@ func QuoteStr(s string) string {
 
 // Render prints e; full=true parenthesises every compound operand, full=false uses the
 // minimal parentheses that the documented precedence/associativity needs.
-func Render(e Expr, full bool) string {
+func Render(e Expr, full bool) string { return RenderCase(e, full, 0) }
+
+// kw spells a keyword of the expression language: style 0 as is, 1 UPPER, 2 Capitalised (keywords are not case
+// sensitive; names are).
+func kw(w string, style int) string {
+	switch style {
+	case 1:
+		return strings.ToUpper(w)
+	case 2:
+		return strings.ToUpper(w[:1]) + w[1:]
+	}
+	return w
+}
+
+// RenderCase is Render with the keywords (true false not head tail and or) spelled in the given style.
+func RenderCase(e Expr, full bool, style int) string {
 	switch x := e.(type) {
 	case EStr:
 		return QuoteStr(x.V)
@@ -402,13 +418,13 @@ func Render(e Expr, full bool) string {
 		return strconv.Itoa(x.V)
 	case EBool:
 		if x.V {
-			return "true"
+			return kw("true", style)
 		}
-		return "false"
+		return kw("false", style)
 	case EVar:
 		return x.Name
 	case EUn:
-		in := Render(x.X, full)
+		in := RenderCase(x.X, full, style)
 		switch x.X.(type) {
 		case EBin:
 			in = "(" + in + ")" // unary operators over unparenthesised binary operands are left open by the documentation
@@ -417,17 +433,21 @@ func Render(e Expr, full bool) string {
 				in = "(" + in + ")"
 			}
 		}
-		return x.Op + " " + in
+		return kw(x.Op, style) + " " + in
 	case EBin:
-		l := Render(x.L, full)
-		r := Render(x.R, full)
+		l := RenderCase(x.L, full, style)
+		r := RenderCase(x.R, full, style)
 		if needParens(x.L, x.Op, false, full) {
 			l = "(" + l + ")"
 		}
 		if needParens(x.R, x.Op, true, full) {
 			r = "(" + r + ")"
 		}
-		return l + " " + x.Op + " " + r
+		op := x.Op
+		if op == "and" || op == "or" {
+			op = kw(op, style)
+		}
+		return l + " " + op + " " + r
 	}
 	return "''"
 }
